@@ -145,6 +145,9 @@ func main() {
 	for i := 0; i < c.Pick(4, 32); i++ {
 		units = append(units, unit{"reuse", i})
 	}
+	for i := 0; i < c.Pick(4, 32); i++ {
+		units = append(units, unit{"sequence", i})
+	}
 	scratch := c.Scratch()
 	timeout := time.Duration(c.Pick(600, 3600)) * time.Second
 	var mu sync.Mutex
@@ -255,6 +258,8 @@ func childMain(args []string) {
 		runFuzz(c, r, idx)
 	case "reuse":
 		runReuse(c, r, idx)
+	case "sequence":
+		runSequence(c, r, idx)
 	default:
 		fmt.Println("unknown phase", args[0])
 		os.Exit(3)
